@@ -12,7 +12,7 @@
 (* Diagnostics are classed: "vm" (register machine, paint, enabling),       *)
 (* "raster" (geometry / call structure), "arc" (arc end point / shape).     *)
 (***************************************************************************)
-EXTENDS Generator, TLC, Json, IOUtils
+EXTENDS Generator, Big, TLC, Json, IOUtils
 
 Trace == ndJsonDeserialize(IOEnv.VERIF_TRACE)
 
@@ -65,7 +65,16 @@ MatrixOK(o, p, rr) ==
              /\ wx > 0 /\ wy > 0 /\ dx > 0 /\ dy > 0
              /\ (dx * 64) % wx = 0 /\ (dy * 64) % wy = 0 /\ IsP2((dx * 64) \div wx) /\ IsP2((dy * 64) \div wy)
              /\ \A i \in 1..6 : o.m[i][1] = 1
-  IN IF ~lat THEN TRUE
+  IN IF ~lat THEN
+        \* a scale that is a float32 but not a power of two: the linear part within the float64 tolerance (Big.tla)
+        IF /\ Has(o, "m64") /\ Len(o.m64) = 6 /\ \A i \in 1..6 : a[i].ok /\ Abs(a[i].k) <= 65536
+           /\ \A i \in 1..4 : v[i].ok /\ Abs(v[i].k) <= 8192
+           /\ wx > 0 /\ wy > 0 /\ dx > 0 /\ dy > 0 /\ dx <= 4096 /\ dy <= 4096
+           /\ Dyadic(dx * 64, wx) /\ Dyadic(dy * 64, wy)
+           /\ \A i \in {1, 2, 4, 5} : o.m64[i][1] \in {0, 1}
+        THEN /\ LinNear(o.m64[1], a[1].k, dx * 64, wx) /\ LinNear(o.m64[4], a[4].k, dx * 64, wx)
+             /\ LinNear(o.m64[2], a[2].k, dy * 64, wy) /\ LinNear(o.m64[5], a[5].k, dy * 64, wy)
+        ELSE TRUE
      ELSE LET jx == Log2((dx * 64) \div wx)
               jy == Log2((dy * 64) \div wy)
               want == << NormDy(a[1].k, 16 + jx), NormDy(a[2].k, 16 + jy),
